@@ -1,0 +1,513 @@
+//! `tokio::fs` facade backed by `std::fs`, executed inline on the calling task.
+//!
+//! Around every operation: a seeded yield point, a fault query and (for mutations) an event
+//! appended to the simulator's mutation log. Like tokio's `File`, one `write` call accepts at
+//! most [`MAX_WRITE`] bytes. Without an installed simulator the operations still work (inline).
+
+use super::{runtime, FsEvent, FsFault, FsOp};
+use std::ffi::OsString;
+use std::fs::{FileType, Metadata, Permissions};
+use std::future::Future;
+use std::io::{self, IoSlice, Read, Seek, SeekFrom, Write};
+use std::path::{Path, PathBuf};
+use std::pin::Pin;
+use std::sync::Arc;
+use std::task::{Context, Poll};
+use tokio::io::{AsyncRead, AsyncSeek, AsyncWrite, ReadBuf};
+
+/// tokio's `File` hands at most this many bytes to one background write.
+pub const MAX_WRITE: usize = 2 * 1024 * 1024;
+
+fn fault(op: FsOp, path: &Path, len: usize) -> FsFault {
+    match runtime() {
+        Some(rt) => rt.fs_fault(op, path, len),
+        None => FsFault::None,
+    }
+}
+
+fn event(event: FsEvent) {
+    if let Some(rt) = runtime() {
+        rt.fs_event(event);
+    }
+}
+
+fn is_dead() -> bool {
+    runtime().map(|rt| rt.is_dead()).unwrap_or(false)
+}
+
+async fn enter(site: &'static str, op: FsOp, path: &Path, len: usize) -> io::Result<FsFault> {
+    super::yield_point(site).await;
+    if is_dead() {
+        return Err(io::Error::other("simulated process is dead"));
+    }
+    match fault(op, path, len) {
+        FsFault::Error(kind) => Err(io::Error::new(kind, "injected fault")),
+        other => Ok(other),
+    }
+}
+
+#[derive(Debug)]
+pub struct File {
+    std: Arc<std::fs::File>,
+    path: PathBuf,
+    append: bool,
+    yielded: bool,
+    seek_result: Option<io::Result<u64>>,
+}
+
+impl File {
+    fn wrap(std: std::fs::File, path: PathBuf, append: bool) -> File {
+        File {
+            std: Arc::new(std),
+            path,
+            append,
+            yielded: false,
+            seek_result: None,
+        }
+    }
+
+    pub async fn open(path: impl AsRef<Path>) -> io::Result<File> {
+        OpenOptions::new().read(true).open(path).await
+    }
+
+    pub async fn create(path: impl AsRef<Path>) -> io::Result<File> {
+        OpenOptions::new()
+            .write(true)
+            .create(true)
+            .truncate(true)
+            .open(path)
+            .await
+    }
+
+    pub fn from_std(std: std::fs::File) -> File {
+        File::wrap(std, PathBuf::new(), false)
+    }
+
+    pub async fn sync_all(&self) -> io::Result<()> {
+        enter("fs.sync", FsOp::Sync, &self.path, 0).await?;
+        self.std.sync_all()?;
+        event(FsEvent::Sync {
+            path: self.path.clone(),
+        });
+        Ok(())
+    }
+
+    pub async fn sync_data(&self) -> io::Result<()> {
+        self.sync_all().await
+    }
+
+    pub async fn set_len(&self, size: u64) -> io::Result<()> {
+        enter("fs.set_len", FsOp::SetLen, &self.path, 0).await?;
+        self.std.set_len(size)?;
+        event(FsEvent::SetLen {
+            path: self.path.clone(),
+            len: size,
+        });
+        Ok(())
+    }
+
+    pub async fn metadata(&self) -> io::Result<Metadata> {
+        enter("fs.metadata", FsOp::Metadata, &self.path, 0).await?;
+        self.std.metadata()
+    }
+
+    pub async fn try_clone(&self) -> io::Result<File> {
+        Ok(File {
+            std: Arc::new(self.std.try_clone()?),
+            path: self.path.clone(),
+            append: self.append,
+            yielded: false,
+            seek_result: None,
+        })
+    }
+
+    pub async fn into_std(self) -> std::fs::File {
+        match Arc::try_unwrap(self.std) {
+            Ok(file) => file,
+            Err(shared) => shared.try_clone().expect("cannot clone file handle"),
+        }
+    }
+
+    pub async fn set_permissions(&self, perm: Permissions) -> io::Result<()> {
+        self.std.set_permissions(perm)
+    }
+
+    /// Returns `Pending` once if the simulator wants the caller to yield before this operation.
+    fn poll_yield(&mut self, site: &'static str, cx: &mut Context<'_>) -> Poll<()> {
+        if self.yielded {
+            self.yielded = false;
+            return Poll::Ready(());
+        }
+        if let Some(rt) = runtime() {
+            if rt.should_yield(site) {
+                self.yielded = true;
+                cx.waker().wake_by_ref();
+                return Poll::Pending;
+            }
+        }
+        Poll::Ready(())
+    }
+
+    fn do_write(&mut self, data: &[u8]) -> io::Result<usize> {
+        if is_dead() {
+            return Err(io::Error::other("simulated process is dead"));
+        }
+        let mut len = data.len().min(MAX_WRITE);
+        let mut error_after = None;
+        match fault(FsOp::Write, &self.path, len) {
+            FsFault::None => {}
+            FsFault::Error(kind) => return Err(io::Error::new(kind, "injected fault")),
+            FsFault::Short(n) => len = len.min(n.max(1)),
+            FsFault::TornThenError(n, kind) => {
+                len = len.min(n);
+                error_after = Some(kind);
+            }
+        }
+        let mut file = &*self.std;
+        let offset = if self.append {
+            file.metadata()?.len()
+        } else {
+            file.stream_position()?
+        };
+        if len > 0 {
+            file.write_all(&data[..len])?;
+            event(FsEvent::Write {
+                path: self.path.clone(),
+                offset,
+                data: data[..len].to_vec(),
+            });
+        }
+        match error_after {
+            Some(kind) => Err(io::Error::new(kind, "injected fault after partial write")),
+            None => Ok(len),
+        }
+    }
+}
+
+impl AsyncWrite for File {
+    fn poll_write(
+        mut self: Pin<&mut Self>,
+        cx: &mut Context<'_>,
+        buf: &[u8],
+    ) -> Poll<io::Result<usize>> {
+        if self.poll_yield("fs.write", cx).is_pending() {
+            return Poll::Pending;
+        }
+        Poll::Ready(self.do_write(buf))
+    }
+
+    fn poll_write_vectored(
+        mut self: Pin<&mut Self>,
+        cx: &mut Context<'_>,
+        bufs: &[IoSlice<'_>],
+    ) -> Poll<io::Result<usize>> {
+        if self.poll_yield("fs.write", cx).is_pending() {
+            return Poll::Pending;
+        }
+        let mut data = Vec::new();
+        for buf in bufs {
+            let room = MAX_WRITE - data.len();
+            if room == 0 {
+                break;
+            }
+            let take = buf.len().min(room);
+            data.extend_from_slice(&buf[..take]);
+        }
+        Poll::Ready(self.do_write(&data))
+    }
+
+    fn is_write_vectored(&self) -> bool {
+        true
+    }
+
+    fn poll_flush(self: Pin<&mut Self>, _cx: &mut Context<'_>) -> Poll<io::Result<()>> {
+        Poll::Ready(Ok(()))
+    }
+
+    fn poll_shutdown(self: Pin<&mut Self>, _cx: &mut Context<'_>) -> Poll<io::Result<()>> {
+        Poll::Ready(Ok(()))
+    }
+}
+
+impl AsyncRead for File {
+    fn poll_read(
+        mut self: Pin<&mut Self>,
+        cx: &mut Context<'_>,
+        buf: &mut ReadBuf<'_>,
+    ) -> Poll<io::Result<()>> {
+        if self.poll_yield("fs.read", cx).is_pending() {
+            return Poll::Pending;
+        }
+        if let FsFault::Error(kind) = fault(FsOp::Read, &self.path, buf.remaining()) {
+            return Poll::Ready(Err(io::Error::new(kind, "injected fault")));
+        }
+        let mut file = &*self.std;
+        let unfilled = buf.initialize_unfilled();
+        let limit = unfilled.len().min(MAX_WRITE);
+        match file.read(&mut unfilled[..limit]) {
+            Ok(n) => {
+                buf.advance(n);
+                Poll::Ready(Ok(()))
+            }
+            Err(error) => Poll::Ready(Err(error)),
+        }
+    }
+}
+
+impl AsyncSeek for File {
+    fn start_seek(mut self: Pin<&mut Self>, position: SeekFrom) -> io::Result<()> {
+        let mut file = &*self.std;
+        let result = file.seek(position);
+        self.seek_result = Some(result);
+        Ok(())
+    }
+
+    fn poll_complete(mut self: Pin<&mut Self>, _cx: &mut Context<'_>) -> Poll<io::Result<u64>> {
+        match self.seek_result.take() {
+            Some(result) => Poll::Ready(result),
+            None => {
+                let mut file = &*self.std;
+                Poll::Ready(file.stream_position())
+            }
+        }
+    }
+}
+
+#[derive(Clone, Debug, Default)]
+pub struct OpenOptions {
+    read: bool,
+    write: bool,
+    append: bool,
+    truncate: bool,
+    create: bool,
+    create_new: bool,
+}
+
+impl OpenOptions {
+    pub fn new() -> OpenOptions {
+        OpenOptions::default()
+    }
+
+    pub fn read(&mut self, value: bool) -> &mut OpenOptions {
+        self.read = value;
+        self
+    }
+
+    pub fn write(&mut self, value: bool) -> &mut OpenOptions {
+        self.write = value;
+        self
+    }
+
+    pub fn append(&mut self, value: bool) -> &mut OpenOptions {
+        self.append = value;
+        self
+    }
+
+    pub fn truncate(&mut self, value: bool) -> &mut OpenOptions {
+        self.truncate = value;
+        self
+    }
+
+    pub fn create(&mut self, value: bool) -> &mut OpenOptions {
+        self.create = value;
+        self
+    }
+
+    pub fn create_new(&mut self, value: bool) -> &mut OpenOptions {
+        self.create_new = value;
+        self
+    }
+
+    pub fn open(&self, path: impl AsRef<Path>) -> impl Future<Output = io::Result<File>> {
+        let options = self.clone();
+        let path = path.as_ref().to_path_buf();
+        async move {
+            enter("fs.open", FsOp::Open, &path, 0).await?;
+            let existed_len = std::fs::metadata(&path).ok().map(|m| m.len());
+            let std = std::fs::OpenOptions::new()
+                .read(options.read)
+                .write(options.write)
+                .append(options.append)
+                .truncate(options.truncate)
+                .create(options.create)
+                .create_new(options.create_new)
+                .open(&path)?;
+            match existed_len {
+                None => event(FsEvent::Create { path: path.clone() }),
+                Some(len) if options.truncate && len > 0 => event(FsEvent::SetLen {
+                    path: path.clone(),
+                    len: 0,
+                }),
+                _ => {}
+            }
+            Ok(File::wrap(std, path, options.append))
+        }
+    }
+}
+
+#[derive(Debug)]
+pub struct DirEntry {
+    path: PathBuf,
+    file_name: OsString,
+}
+
+impl DirEntry {
+    pub fn path(&self) -> PathBuf {
+        self.path.clone()
+    }
+
+    pub fn file_name(&self) -> OsString {
+        self.file_name.clone()
+    }
+
+    pub async fn metadata(&self) -> io::Result<Metadata> {
+        std::fs::metadata(&self.path)
+    }
+
+    pub async fn file_type(&self) -> io::Result<FileType> {
+        Ok(std::fs::symlink_metadata(&self.path)?.file_type())
+    }
+}
+
+/// Directory listing, sorted by file name so that iteration order is deterministic.
+#[derive(Debug)]
+pub struct ReadDir {
+    entries: std::collections::VecDeque<DirEntry>,
+}
+
+impl ReadDir {
+    pub async fn next_entry(&mut self) -> io::Result<Option<DirEntry>> {
+        Ok(self.entries.pop_front())
+    }
+}
+
+pub async fn read_dir(path: impl AsRef<Path>) -> io::Result<ReadDir> {
+    let path = path.as_ref();
+    enter("fs.read_dir", FsOp::ReadDir, path, 0).await?;
+    let mut entries = Vec::new();
+    for entry in std::fs::read_dir(path)? {
+        let entry = entry?;
+        entries.push(DirEntry {
+            path: entry.path(),
+            file_name: entry.file_name(),
+        });
+    }
+    entries.sort_by(|a, b| a.file_name.cmp(&b.file_name));
+    Ok(ReadDir {
+        entries: entries.into(),
+    })
+}
+
+pub async fn create_dir_all(path: impl AsRef<Path>) -> io::Result<()> {
+    let path = path.as_ref();
+    enter("fs.create_dir", FsOp::CreateDir, path, 0).await?;
+    std::fs::create_dir_all(path)?;
+    event(FsEvent::Mkdir {
+        path: path.to_path_buf(),
+    });
+    Ok(())
+}
+
+pub async fn create_dir(path: impl AsRef<Path>) -> io::Result<()> {
+    let path = path.as_ref();
+    enter("fs.create_dir", FsOp::CreateDir, path, 0).await?;
+    std::fs::create_dir(path)?;
+    event(FsEvent::Mkdir {
+        path: path.to_path_buf(),
+    });
+    Ok(())
+}
+
+pub async fn remove_dir_all(path: impl AsRef<Path>) -> io::Result<()> {
+    let path = path.as_ref();
+    enter("fs.remove_dir", FsOp::RemoveDir, path, 0).await?;
+    std::fs::remove_dir_all(path)?;
+    event(FsEvent::RemoveDirAll {
+        path: path.to_path_buf(),
+    });
+    Ok(())
+}
+
+pub async fn remove_dir(path: impl AsRef<Path>) -> io::Result<()> {
+    let path = path.as_ref();
+    enter("fs.remove_dir", FsOp::RemoveDir, path, 0).await?;
+    std::fs::remove_dir(path)?;
+    event(FsEvent::RemoveDirAll {
+        path: path.to_path_buf(),
+    });
+    Ok(())
+}
+
+pub async fn remove_file(path: impl AsRef<Path>) -> io::Result<()> {
+    let path = path.as_ref();
+    enter("fs.remove", FsOp::Remove, path, 0).await?;
+    std::fs::remove_file(path)?;
+    event(FsEvent::Unlink {
+        path: path.to_path_buf(),
+    });
+    Ok(())
+}
+
+pub async fn rename(from: impl AsRef<Path>, to: impl AsRef<Path>) -> io::Result<()> {
+    let (from, to) = (from.as_ref(), to.as_ref());
+    enter("fs.rename", FsOp::Rename, from, 0).await?;
+    std::fs::rename(from, to)?;
+    event(FsEvent::Rename {
+        from: from.to_path_buf(),
+        to: to.to_path_buf(),
+    });
+    Ok(())
+}
+
+pub async fn try_exists(path: impl AsRef<Path>) -> io::Result<bool> {
+    let path = path.as_ref();
+    enter("fs.metadata", FsOp::Metadata, path, 0).await?;
+    path.try_exists()
+}
+
+pub async fn metadata(path: impl AsRef<Path>) -> io::Result<Metadata> {
+    let path = path.as_ref();
+    enter("fs.metadata", FsOp::Metadata, path, 0).await?;
+    std::fs::metadata(path)
+}
+
+pub async fn symlink_metadata(path: impl AsRef<Path>) -> io::Result<Metadata> {
+    std::fs::symlink_metadata(path)
+}
+
+pub async fn read_link(path: impl AsRef<Path>) -> io::Result<PathBuf> {
+    std::fs::read_link(path)
+}
+
+pub async fn canonicalize(path: impl AsRef<Path>) -> io::Result<PathBuf> {
+    std::fs::canonicalize(path)
+}
+
+pub async fn read(path: impl AsRef<Path>) -> io::Result<Vec<u8>> {
+    let path = path.as_ref();
+    enter("fs.read", FsOp::Read, path, 0).await?;
+    std::fs::read(path)
+}
+
+pub async fn read_to_string(path: impl AsRef<Path>) -> io::Result<String> {
+    let path = path.as_ref();
+    enter("fs.read", FsOp::Read, path, 0).await?;
+    std::fs::read_to_string(path)
+}
+
+pub async fn write(path: impl AsRef<Path>, contents: impl AsRef<[u8]>) -> io::Result<()> {
+    let path = path.as_ref();
+    let contents = contents.as_ref();
+    let mut file = File::create(path).await?;
+    let mut written = 0;
+    while written < contents.len() {
+        written += file.do_write(&contents[written..])?;
+    }
+    Ok(())
+}
+
+pub async fn copy(from: impl AsRef<Path>, to: impl AsRef<Path>) -> io::Result<u64> {
+    let data = read(from).await?;
+    write(to, &data).await?;
+    Ok(data.len() as u64)
+}
